@@ -45,6 +45,19 @@ Entry(kind, i, mask) == [kind |-> kind,
                          q |-> Aff2Raw(IF mask \in {"Q", "both"} THEN <<>> ELSE M2(FromNat(3 * i + 2)))]
 \* all mask assignments for n positions with at most MaxId identity positions
 MaskSeqs(n) == { m \in [1..n -> Masks] : Cardinality({ i \in 1..n : m[i] # "none" }) <= (IF Tier = "quick" THEN 1 ELSE 2) }
+\* several pair records naming THE SAME operand object (shareq / sharep: 0-based index of the earlier entry whose object is used): the
+\* product is over pairs, whatever storage they share; with and without an identity in the first of the sharing pairs
+SharedCases ==
+  LET E(kind, i, mask) == Entry(kind, i, mask)
+      Q1(e) == [e EXCEPT !.q = E("affine", 1, "none").q]           \* the same G2 value as entry 1
+      P1(e) == [e EXCEPT !.p = E("affine", 1, "none").p]
+  IN SetToSeq({ [op |-> "pair.sum", rounds |-> 2, na |-> 3, np |-> 0, mask |-> <<m1, "none", "none">>,
+                  entries |-> << E("affine", 1, m1), Q1(E("affine", 2, "none")) @@ [shareq |-> 0], E("affine", 3, "none") >>, src |-> "gen", cls |-> "shared-q"] : m1 \in {"none", "P"} })
+     \o SetToSeq({ [op |-> "pair.sum", rounds |-> 2, na |-> 2, np |-> 1, mask |-> <<m1, "none", "none">>,
+                  entries |-> << E("affine", 1, m1), P1(E("affine", 2, "none")) @@ [sharep |-> 0], Q1(E("prepared", 3, "none")) >>, src |-> "gen", cls |-> "shared-p"] : m1 \in {"none", "Q"} })
+     \o << [op |-> "pair.sum", rounds |-> 1, na |-> 3, np |-> 0, mask |-> <<"P", "P", "none">>,
+            entries |-> << E("affine", 1, "P"), Q1(E("affine", 2, "P")) @@ [shareq |-> 0], Q1(E("affine", 3, "none")) @@ [shareq |-> 1] >>, src |-> "gen", cls |-> "shared-q"] >>
+
 SumCases ==
   SetToSeq(UNION { UNION { { [op |-> "pair.sum", rounds |-> 2, na |-> na, np |-> np, mask |-> m,
                               entries |-> [i \in 1..(na + np) |-> Entry(IF i <= na THEN "affine" ELSE "prepared", i, m[i])], src |-> "gen"]
@@ -52,6 +65,7 @@ SumCases ==
   \* interleaved construction order (prepared first) and a repeated pair
   \o << [op |-> "pair.sum", rounds |-> 2, na |-> 1, np |-> 1, mask |-> <<"none", "none">>,
          entries |-> << Entry("prepared", 1, "none"), Entry("affine", 1, "none") >>, src |-> "gen"] >>
+  \o SharedCases
 
 \* ---- target group ----------------------------------------------------------------------------------------
 GTBases == IF Tier = "quick" THEN { GTGen, RefPairing(M1(FromNat(3)), M2(FromNat(5))) } ELSE { GTGen, F12Exp(GTGen, Sub(RMod, One)), RefPairing(M1(FromNat(3)), M2(FromNat(5))), F12!EOne }
